@@ -34,7 +34,19 @@ def run(ctx):
             c = copy.deepcopy(ok[0]); c["shuf"][0][0][c["start"]] = (c["shuf"][0][0][c["start"]] + 1) % 4
             out.append(c)
         return out
-    std.m2(ctx, "c08", "Wrappers_Trace", "Wrappers_Trace.cfg", 800 if ctx.quick else 20000, negs, extra_events=facts, evkeys=KEYS)
+    def negs_all(events):
+        for e in events:
+            e.setdefault("isfunc", e["op"].startswith("func:"))
+        out = negs([e for e in events if not e["isfunc"]])
+        fe = [e for e in events if e["isfunc"] and e["st"] == "ok"]
+        if fe:
+            c = copy.deepcopy(fe[0]); c["fact"][0][0] = (c["fact"][0][0] + 1) % 1000003; out.append(c)
+        return out
+    for e in facts:
+        e["isfunc"] = False
+    events, bad = std.m2(ctx, "c08", "Wrappers_Trace", "Wrappers_Trace.cfg", 800 if ctx.quick else 20000, negs_all, extra_events=facts, evkeys=None,
+                         strip=("kind", "msg"))
+    ctx.lane("M2", func_lane_events=sum(1 for e in events if e.get("isfunc")))
     ctx.assumptions += ["model = PosCoded fingerprint (harness/impl/models.py mirrors ISMOps.F / WrappersOps.Vec)",
                         "shuffles used by ablate are logged facts obtained from ersatz.shuffle with the same seed and checked to be "
                         "shuffles of the region; func = predict"]
